@@ -17,6 +17,7 @@ def showPErr : PErr → String
 
 def showLogEntry : LogEntry → String
   | .call t p => "c" ++ toString t ++ "/" ++ showPacket p
+  | .ncall t p => "n" ++ toString t ++ "/" ++ showPacket p
   | .tx p ok => "t" ++ (if ok then "ok" else "er") ++ "/" ++ showPacket p
   | .wait => "w"
 
@@ -52,6 +53,22 @@ def runOp (s : Proto) (op : String) : Option (Proto × String) :=
       | .ok es => "ok(" ++ (if es.isEmpty then "-" else String.intercalate "+" (es.map showEvent)) ++ ")"
       | .error e => showPErr e)
   | _ => none
+
+/-- run a history; per operation `<result>@<rx items left>#<log length>`, the whole log, and the number of registered
+handlers before each operation -/
+def runProtoStepsN (addr rxq txq ops : String) : Option (List String × List String × List Nat) := do
+  let a ← parseHexNat addr
+  let rx ← parseRxq rxq
+  let tx ← parseTxq txq
+  let opl := if ops = "-" then [] else ops.splitOn ";"
+  let rec go (s : Proto) (ops : List String) (acc : List String) (ns : List Nat) : Option (Proto × List String × List Nat) :=
+    match ops with
+    | [] => some (s, acc.reverse, ns.reverse)
+    | o :: t => match runOp s o with
+      | some (s', r) => go s' t ((r ++ "@" ++ toString s'.rxQueue.length ++ "#" ++ toString s'.log.length) :: acc) (s.handlers.length :: ns)
+      | none => none
+  let (s, rs, ns) ← go (Proto.init (UInt16.ofNat a) rx tx) opl [] []
+  pure (rs, s.log.map showLogEntry, ns)
 
 /-- run a history; per operation `<result>@<rx items left>#<log length>`, and the whole log -/
 def runProtoSteps (addr rxq txq ops : String) : Option (List String × List String) := do
